@@ -1,18 +1,4 @@
-//@ unit u_adj
-// Traversal-list update (C03): AdjacentNode::new and add_to_adjacency_vec, extracted from
-// src/graph/adjacent_node.rs and src/graph/creation.rs on every run.
-use vstd::prelude::*;
-verus! {
-//@ include float.rs
-broadcast use f64ax::group_f64_axioms;
-
-//@ extract struct src/graph/adjacent_node.rs AdjacentNode pubfields
-//@ rewrite
-pub(crate) struct
-//@ with
-pub struct
-//@ end
-
+// ---- traversal-list update (C03): AdjacentNode::new and add_to_adjacency_vec ----
 impl AdjacentNode {
 //@ extract fn src/graph/adjacent_node.rs new props=C03,C20 ty=AdjacentNode
 //@ rewrite
@@ -60,5 +46,3 @@ pub open spec fn row_updated(row: Seq<AdjacentNode>, row2: Seq<AdjacentNode>, v:
                     row_updated(old(adjacency_vec)[u_node_index as int]@, adjacency_vec[u_node_index as int]@, v_node_index, weight, replace, index as int),
 //@ end
 
-} // verus!
-fn main() {}
